@@ -11,6 +11,7 @@ import facts as factsmod
 from interp import Interp, AnalysisError, Inp, describe
 from models import Models
 import exceptions as spec_exceptions
+from mirq import calls
 
 # InputRef methods whose bodies are *primitives* of the protocol: their conformance is decided
 # by the HOOKS / provenance rules (rules_hooks.py), not by the typestate interpreter.
@@ -132,7 +133,18 @@ class ProtocolRun:
         # a helper nobody inlined (unused, or reached only through an unanalysed path) is analysed as a body of its own
         inl = getattr(self.I, "inlined_helpers", set())
         self.helpers_judged_in_callers = [b["uname"] for b in helpers if b["key"] in inl]
-        self._run([b for b in helpers if b["key"] not in inl])
+        # a helper that only the entry points call (`take_primary_error(&mut inp)` extracted from parse_with_state) is not part of the
+        # combinator protocol at all: the entry points own the input, and ENTRY reads them with such helpers inlined at MIR level
+        callers = {}
+        for b_ in self.facts.bodies:
+            for _, _, _, f in calls(b_):
+                if f is not None and f.get("krate") == "chumsky":
+                    callers.setdefault(f["name"], []).append(b_)
+
+        def entry_only(h):
+            cs = callers.get(h["name"]) or []
+            return bool(cs) and all(not is_protocol_body(c) and c["kind"] != "Closure" for c in cs)
+        self._run([b for b in helpers if b["key"] not in inl and not entry_only(b)])
         self._run(self.closure_bodies(), closure=True)
         return self
 
